@@ -110,6 +110,17 @@ def _hand() -> dict[str, dict[str, Any]]:
     H["vmap_of_cond"] = {"fn": jax.vmap(lambda r: lax.cond(jnp.sum(r) > 0, lambda v: v * 2, lambda v: -v, r)), "sig": X}
     H["vmap_of_fori"] = {"fn": jax.vmap(lambda r: lax.fori_loop(0, 3, lambda i, v: v * 1.1 + 0.1, r)), "sig": X}
     H["vmap_of_scan"] = {"fn": jax.vmap(lambda r: lax.scan(lambda c, e: (c + e, c * e), 0.0, r)[1]), "sig": X}
+    SQ = [((4, 4), np.float32), ((4, 4), np.float32)]
+    for nm, op in {
+        "add": jnp.add, "subtract": jnp.subtract, "multiply": jnp.multiply, "divide": lambda p, q: jnp.divide(p, jnp.abs(q) + 1.0), "maximum": jnp.maximum, "minimum": jnp.minimum,
+        "power": lambda p, q: jnp.power(jnp.abs(p) + 0.5, q), "where": lambda p, q: jnp.where(p > q, p, -q), "greater": lambda p, q: (p > q).astype(jnp.float32) + (p <= q) * 2.0,
+        "atan2": jnp.arctan2, "logaddexp": jnp.logaddexp, "hypot": jnp.hypot, "fmod": lambda p, q: jnp.fmod(p, jnp.abs(q) + 0.5), "lax_add_max": lambda p, q: lax.max(lax.add(p, q), lax.mul(p, q)),
+        "matmul_vec": lambda p, q: p @ q, "dot_outer": lambda p, q: jnp.outer(p, q).sum(0), "nextafter_free": lambda p, q: jnp.square(p) - jnp.sqrt(jnp.abs(q)),
+    }.items():
+        H[f"vmap_mixed_axes_{nm}"] = {"fn": jax.vmap((lambda op: lambda p, q: op(p, q) + jnp.add(p, q) * 0.0)(op), in_axes=(1, 0)), "sig": SQ}
+        H[f"vmap_mixed_axes_out1_{nm}"] = {"fn": jax.vmap(op, in_axes=(0, 1), out_axes=1), "sig": SQ}
+    H["vmap_mixed_axes_three_operands"] = {"fn": jax.vmap(lambda a, b, c: jnp.where(a > 0, b, c) + a * b - c, in_axes=(1, 0, 1)), "sig": SQ + [((4, 4), np.float32)]}
+    H["vmap_mixed_axes_int_bitwise"] = {"fn": jax.vmap(lambda a, b: (a & b) | (a ^ 3), in_axes=(1, 0)), "sig": [((4, 4), np.int32), ((4, 4), np.int32)]}
     H["grad_through_where_and_clip"] = {"fn": jax.grad(lambda x: jnp.sum(jnp.clip(jnp.where(x > 0, x * x, -x), 0.01, 0.3))), "sig": X}
     H["grad_through_concat_reshape"] = {"fn": jax.grad(lambda x: jnp.sum(jnp.concatenate([x, x * 2], 0).reshape(-1)[::2] ** 2)), "sig": X}
     H["grad_through_take_cumsum"] = {"fn": jax.grad(lambda x: jnp.sum(jnp.cumsum(jnp.take(x, jnp.array([2, 0]), axis=1), axis=0) ** 2)), "sig": X}
